@@ -581,7 +581,16 @@ def judge(rec: dict) -> Tuple[List[dict], List[str]]:
                                   % (case.get('extra'), rec.get('obs_diff'))})
     # -- correspondence ---------------------------------------------------------------------------------
     if outcome_str(impl) != outcome_str(reply['outcome']):
-        diffs.append('outcome: impl %s, model %s' % (outcome_str(impl), outcome_str(reply['outcome'])))
+        if rec['stream'] == 'missing' and impl['status'] == 'error' and \
+                (impl['error'] in MISSING_ERRORS or impl.get('missing_like')):
+            # An incomplete assignment on which the implementation asks for more than the model reads:
+            # `RangeScope.keys()` is `as_dict().keys()`, so below an iteration every constraint check and every
+            # table instantiation evaluates *all* parameters of the enclosing mapped scopes.  The property only
+            # demands an error when a needed parameter is missing (judged above); it does not forbid one
+            # otherwise.  Counted, not a disagreement about the property.
+            rec['needs_more'] = True
+        else:
+            diffs.append('outcome: impl %s, model %s' % (outcome_str(impl), outcome_str(reply['outcome'])))
     if rec['declared'] != reply['names'] and not rec['nested_map']:
         diffs.append('parameter_names: impl %s, model %s' % (rec['declared'], reply['names']))
     if not reply['wf']:
@@ -630,6 +639,8 @@ def assess(ctx: core.Ctx, rec: dict, count=True) -> Tuple[List[dict], List[str],
             ctx.count('extra:grid-points-compared', rec.get('grid_points', 0))
         if rec['nested_map']:
             ctx.count('with-mapping-below-mapping')
+        if rec.get('needs_more'):
+            ctx.count('missing:implementation-needs-more-than-model')
     return viols, diffs, known
 
 
